@@ -470,6 +470,20 @@ impl<T> DataReaderEntity<T> {
             return Ok(AddChangeResult::NotAdded);
         }
 
+        let num_alive_samples_of_instance = self
+            .sample_list
+            .iter()
+            .filter(|cc| {
+                cc.instance_handle == sample.instance_handle && cc.kind == ChangeKind::Alive
+            })
+            .count() as u32;
+        // With KEEP_LAST the oldest alive sample of the instance is replaced by the new one,
+        // so it does not count towards the resource limits
+        let replaced_samples = match self.qos.history.kind {
+            HistoryQosPolicyKind::KeepLast(depth) if depth == num_alive_samples_of_instance => 1,
+            _ => 0,
+        };
+
         let is_max_samples_limit_reached = {
             let total_samples = self
                 .sample_list
@@ -477,7 +491,7 @@ impl<T> DataReaderEntity<T> {
                 .filter(|cc| cc.kind == ChangeKind::Alive)
                 .count();
 
-            total_samples == self.qos.resource_limits.max_samples
+            total_samples - replaced_samples == self.qos.resource_limits.max_samples
         };
         let is_max_instances_limit_reached = {
             let mut instance_handle_list = Vec::new();
@@ -500,7 +514,8 @@ impl<T> DataReaderEntity<T> {
                 .filter(|cc| cc.instance_handle == sample.instance_handle)
                 .count();
 
-            total_samples_of_instance == self.qos.resource_limits.max_samples_per_instance
+            total_samples_of_instance - replaced_samples
+                == self.qos.resource_limits.max_samples_per_instance
         };
         if is_max_samples_limit_reached {
             return Ok(AddChangeResult::Rejected(
@@ -518,14 +533,6 @@ impl<T> DataReaderEntity<T> {
                 SampleRejectedStatusKind::RejectedBySamplesPerInstanceLimit,
             ));
         }
-        let num_alive_samples_of_instance = self
-            .sample_list
-            .iter()
-            .filter(|cc| {
-                cc.instance_handle == sample.instance_handle && cc.kind == ChangeKind::Alive
-            })
-            .count() as u32;
-
         if let HistoryQosPolicyKind::KeepLast(depth) = self.qos.history.kind {
             if depth == num_alive_samples_of_instance {
                 let index_sample_to_remove = self
